@@ -888,8 +888,51 @@ def class_instances(rng, heavy=True):
     return res
 
 
+def highrank_instances(rng):
+    """the node rules again on operands with 3 and 4 axes of pairwise different lengths (random axis order): every rule that permutes,
+    pairs, ravels or scatters axes is exercised where a wrong axis/stride changes the result.  (class, label, expression, args, wrt)"""
+    s = distinct_shape(rng, 3); u = distinct_shape(rng, 4)
+    T, U, x = A('T', *s), A('U', *u), A('x', s[2])
+    args = dict(T=dyadic(rng, s), U=dyadic(rng, u), x=dyadic(rng, (s[2],)))
+    mul = lambda a, b: ev.Multiply(types.frozenmultiset([a, b]))
+    add = lambda a, b: ev.Add(types.frozenmultiset([a, b]))
+    cst = lambda v: ev.Constant(types.arraydata(numpy.asarray(v)))
+    def perm(n):
+        p = list(range(n))
+        while p == list(range(n)): rng.shuffle(p)
+        return tuple(p)
+    p3, p4 = perm(3), perm(4)
+    T2 = mul(T, T)
+    li = ev.loop_index('i', ev.constant(s[2]))
+    idx = cst(numpy.array([s[2]-1, 0]))
+    dof2 = cst(numpy.random.default_rng(rng.getrandbits(32)).integers(0, 5, (s[1], s[2])))
+    xb = ev.prependaxes(x, T.shape[:2])
+    out = [
+        ('Argument', 'T (3 axes)', T, 'T'),
+        ('Argument', 'U (4 axes)', U, 'U'),
+        ('Transpose', 'Sum(Transpose(T², %s))' % (p3,), ev.Sum(ev.Transpose(T2, p3)), 'T'),
+        ('Transpose', 'Sum(Sum(Transpose(U², %s)))' % (p4,), ev.Sum(ev.Sum(ev.Transpose(mul(U, U), p4))), 'U'),
+        ('InsertAxis', 'Sum(Transpose(InsertAxis(T², 2), (0,3,1,2)))', ev.Sum(ev.Transpose(ev.InsertAxis(T2, ev.constant(2)), (0, 3, 1, 2))), 'T'),
+        ('Product', 'Product(T)', ev.Product(T), 'T'),
+        ('Sum', 'Sum(T²·x)', ev.Sum(mul(T2, xb)), 'T'),
+        ('Multiply', 'T·x wrt x', mul(T, xb), 'x'),
+        ('Take', 'Take(T², [n-1, 0])', ev.Take(T2, idx), 'T'),
+        ('Inflate', 'Inflate(T², 2-d dofmap, 5)', ev.Inflate(T2, dof2, ev.constant(5)), 'T'),
+        ('Ravel', 'Ravel(T²)', ev.Ravel(T2), 'T'),
+        ('Unravel', 'Unravel(Ravel(T²), n2, n1)', ev.Unravel(ev.Ravel(T2), ev.constant(s[2]), ev.constant(s[1])), 'T'),
+        ('LoopSum', 'LoopSum_i T[..,i]·(i+1)', ev.loop_sum(mul(ev.Take(T, li), ev.prependaxes(ev.IntToFloat(li + 1), T.shape[:2])), li), 'T'),
+        ('LoopConcatenate', 'LoopConcatenate_i T²[..,i:i+1]', ev.loop_concatenate(ev.InsertAxis(ev.Take(T2, li), ev.constant(1)), li), 'T'),
+        ('Einsum', 'einsum(ijk,k->ji)', ev.einsum('ijk,k->ji', T2, x), 'T'),
+        ('Polyval', 'Polyval(coeffs T, points x[:1])', ev.Polyval(T, ev.Take(x, cst(numpy.array([0])))), 'T') if s[2] in (2, 3, 4) else None,
+    ]
+    return [(t[0], t[1], t[2], {k: v for k, v in args.items()}, t[3]) for t in out if t is not None]
+
+
 def stream_classes(c, J):
     cases = []
+    for cname, label, e, args, wrt in highrank_instances(c.rng):
+        used = {a.name for a in e.arguments if isinstance(a, ev.Argument)} | {wrt}
+        cases += derivative_case(c, 'class-highrank', '%s: %s' % (cname, label), e, wrt, {k: v for k, v in args.items() if k in used}, second=False, outcome=J.outcome, max_entries=FACTOR_MAX_ENTRIES)
     for cname, label, e, args, wrt, second in class_instances(c.rng, heavy=c.tier != 'quick'):
         used = {a.name for a in e.arguments if isinstance(a, ev.Argument)} | {wrt}
         cases += derivative_case(c, 'class', '%s: %s' % (cname, label), e, wrt, {k: v for k, v in args.items() if k in used}, second=second, outcome=J.outcome)
@@ -1094,8 +1137,13 @@ def random_polynomial(rng, argv):
         terms = []
         for _ in range(rng.choice([2, 3])):
             budget = 3; term = None
+            mass = int(numpy.prod(k, dtype=int))      # size of the dense coefficient tensor factor() evaluates for this term
             for name, shape in rng.sample(argv, rng.randint(1, min(2, len(argv)))):
-                p = rng.randint(1, min(2, budget)); budget -= p
+                size = int(numpy.prod(shape, dtype=int))
+                p = rng.randint(1, min(2, budget))
+                while p > 1 and mass * size**p > COEFF_TENSOR_LIMIT: p -= 1
+                if term is not None and mass * size**p > COEFF_TENSOR_LIMIT: continue
+                budget -= p; mass *= size**p
                 f = contract(name, shape, p, k)
                 term = f if term is None else ('mul', term, f)
                 if budget <= 0: break
@@ -1108,30 +1156,31 @@ def random_polynomial(rng, argv):
     nd = len(shape)
     axes = list(range(nd)); rng.shuffle(axes)
     a = ('arg', name, shape)
-    q = ('add', ('mul', cst(sparse_dyadic(rng, shape)), power(a, rng.choice([1, 2]))), ('mul', a, cst(sparse_dyadic(rng, shape))))
+    others = [t for t in argv if t[0] != name]
+    size = int(numpy.prod(shape, dtype=int))
+    pw = rng.choice([1, 2])
+    if others:
+        other = rng.choice(others)
+        if size**pw * int(numpy.prod(other[1], dtype=int)) * max(shape)**2 > COEFF_TENSOR_LIMIT: pw = 1
+    q = ('add', ('mul', cst(sparse_dyadic(rng, shape)), power(a, pw)), ('mul', a, cst(sparse_dyadic(rng, shape))))
     q = ('transpose', q, tuple(axes))
     tshape = tuple(shape[i] for i in axes)
     nkeep = rng.choice([1, 1, 2]) if nd > 2 else 1
     for _ in range(nd - nkeep): q = ('sum', q)
     kshape = tshape[:nkeep]
-    others = [t for t in argv if t[0] != name]
     if others:
-        b, bshape = rng.choice(others)
+        b, bshape = other
         q = ('add', ('mul', q, ('prepend', contract(b, bshape, 1, ()), kshape)), q)
     return 'partial(axes %s keep %d)' % (axes, nkeep), q, kshape
 
 
 FACTOR_MAX_ENTRIES = 600
+COEFF_TENSOR_LIMIT = 20000
 
 
-def stream_factor(c, J, n, nlean=0):
-    """Monomial._derivative: evaluable.factor (and function.factor) of random polynomials in arguments of 0..4 axes with pairwise different
-    axis lengths; first derivatives w.r.t. every argument and (mixed) second derivatives of the FACTORED form, un-simplified and simplified,
-    evaluated by the real code and compared with the exact Jacobian of the polynomial (formal differentiation of a sparse polynomial with
-    Fraction coefficients, independent of nutils); candidates are confirmed with finite differences of the real evaluation.  The first
-    `nlean` first-derivative cases with few entries additionally go through the Lean check against the un-factored expression."""
-    cases = []
-    rng = c.rng
+def factor_one(rng, c, J, confirm):
+    """one random polynomial -> factor -> derivative trees vs the exact polynomial Jacobian; candidates are confirmed with finite
+    differences and reported (`confirm=False`: only counted in J.candidates, for use inside worker processes)"""
     def judge(label, tree_tag, d, args, exact, e_real, e_for_fd, wrt, second):
         """d: derivative tree of e_real w.r.t. argument wrt; exact: the exact Jacobian; e_for_fd: () -> real expression whose finite
         differences confirm a candidate (the differentiated expression itself, or for second derivatives the first derivative of the
@@ -1142,6 +1191,8 @@ def stream_factor(c, J, n, nlean=0):
             J.outcome['factor:equals-exact-polynomial-jacobian:' + tree_tag] += 1; J.nnum += 1
             return
         # candidate: the real derivative value differs from the exact derivative of the polynomial (or cannot be evaluated)
+        if not confirm:
+            J.candidates += 1; return
         if kd == 'ok':
             sig = 'derivative-wrong:Monomial(factor)'
             if any(v_[2] == sig for v_ in c.violations):
@@ -1162,87 +1213,108 @@ def stream_factor(c, J, n, nlean=0):
                dict(stream='factor', label=label, wrt=wrt, which=tree_tag, expr=X.describe(e_real, args), pickled=pack(e_real, args),
                     real_derivative=dv.tolist() if kd == 'ok' else repr(dv), expected=exact.tolist()))
         J.outcome['VIOLATION'] += 1
+    def raised(d, label, e, args, wrt):
+        if kind_is_notimplemented(d): return
+        if not confirm:
+            J.candidates += 1; return
+        J.fail('derivative-raises:%s:%s' % (type(d).__name__ if d is not None else 'hang', (raising_rule(d) if d is not None else None) or 'Monomial(factor)'),
+               'evaluable.derivative raises %r on %s' % (d, label), dict(stream='factor', label=label, wrt=wrt, expr=X.describe(e, args), pickled=pack(e, args)))
+    def kind_is_notimplemented(d):
+        return isinstance(d, NotImplementedError)
     def trees(d):
         out = [('raw', d)]
         ks, s_ = safe_simplified(d)
         if ks == 'ok' and s_ is not d: out.append(('simplified', s_))
         elif ks != 'ok': J.outcome['factor:derivative-simplify-' + ks] += 1
         return out
-    for i in range(n):
-        nargs = rng.choice([1, 2, 2, 3])
-        ranks = [rng.choice([3, 3, 4])] + [rng.choice([0, 1, 1, 2, 2, 3]) for _ in range(nargs - 1)]
-        rng.shuffle(ranks)
-        argv, args = [], {}
-        for j, r in enumerate(ranks):
-            shape = distinct_shape(rng, r)
-            argv.append(('pqr'[j], shape)); args['pqr'[j]] = dyadic(rng, shape)
-        api = rng.choice(['evaluable', 'evaluable', 'function'])
-        try:
-            plabel, ast, eshape = random_polynomial(rng, argv)
-            sp = sp_interpret(ast)
-            if api == 'evaluable':
-                poly = ev_interpret(ast, {nm: A(nm, *sh) for nm, sh in argv})
-                kind, f = X.guarded(lambda: ev.factor(poly), 60)
-            else:
-                fpoly = function.Array.cast(ev_interpret_function(ast, {nm: function.Argument(nm, sh) for nm, sh in argv}))
-                poly = fpoly.as_evaluable_array
-                kind, ff = X.guarded(lambda: function.factor(fpoly), 60)
-                f = ff.as_evaluable_array if kind == 'ok' else ff
-        except Exception as ex:
-            J.outcome['factor:generator-exception:' + type(ex).__name__] += 1; continue
-        label = '%s.factor(%s in %s)' % (api, plabel, ', '.join('%s%s' % t for t in argv))
-        if kind != 'ok':
-            J.outcome['factor-%s:%s' % (kind, type(f).__name__)] += 1; continue
-        env = sp_env(args)
-        # oracle sanity + the factored VALUE (C02's business; a mismatch would make the comparison below meaningless)
-        want = sp_values(sp, env)
-        k1, v1 = X.real_eval(f, args); k2, v2 = X.real_eval(poly, args)
-        if k2 != 'ok' or v2.shape != want.shape or not rel_close(v2, want, 1e-12):
+    nargs = rng.choice([1, 2, 2, 3])
+    ranks = [rng.choice([3, 3, 4])] + [rng.choice([0, 1, 1, 2, 2, 3]) for _ in range(nargs - 1)]
+    rng.shuffle(ranks)
+    argv, args = [], {}
+    for j, r in enumerate(ranks):
+        shape = distinct_shape(rng, r)
+        argv.append(('pqr'[j], shape)); args['pqr'[j]] = dyadic(rng, shape)
+    api = rng.choice(['evaluable', 'evaluable', 'function'])
+    try:
+        plabel, ast, eshape = random_polynomial(rng, argv)
+        sp = sp_interpret(ast)
+        if api == 'evaluable':
+            poly = ev_interpret(ast, {nm: A(nm, *sh) for nm, sh in argv})
+            kind, f = X.guarded(lambda: ev.factor(poly), 60)
+        else:
+            fpoly = function.Array.cast(ev_interpret_function(ast, {nm: function.Argument(nm, sh) for nm, sh in argv}))
+            poly = fpoly.as_evaluable_array
+            kind, ff = X.guarded(lambda: function.factor(fpoly), 60)
+            f = ff.as_evaluable_array if kind == 'ok' else ff
+    except Exception as ex:
+        J.outcome['factor:generator-exception:' + type(ex).__name__] += 1; return
+    label = '%s.factor(%s in %s)' % (api, plabel, ', '.join('%s%s' % t for t in argv))
+    if kind != 'ok':
+        J.outcome['factor-%s:%s' % (kind, type(f).__name__)] += 1; return
+    env = sp_env(args)
+    # oracle sanity + the factored VALUE (C02's business; a mismatch would make the comparison below meaningless)
+    want = sp_values(sp, env)
+    k1, v1 = X.real_eval(f, args); k2, v2 = X.real_eval(poly, args)
+    if k2 != 'ok' or v2.shape != want.shape or not rel_close(v2, want, 1e-12):
+        if confirm:
             c.broken_no_input('corr:exact-polynomial-oracle', 'the exact polynomial value differs from the real evaluation of the un-factored expression', dict(label=label, real=repr(v2), exact=want.tolist()))
+        else:
+            J.candidates += 1
+        return
+    if k1 != 'ok' or not rel_close(v1, want, 1e-9):
+        J.outcome['factor:value-differs-from-unfactored'] += 1; return
+    c.count('factor:polynomials')
+    c.count('factor:Monomial-nodes', sum(1 for nd in shrink.all_nodes(f) if type(nd).__name__ == 'Monomial'))
+    used = [(nm, sh) for nm, sh in argv if find_argument(poly, nm) is not None]
+    for nm, sh in used:
+        size = int(numpy.prod(sh, dtype=int))
+        if static_size(poly) * size > FACTOR_MAX_ENTRIES:
+            J.outcome['skipped-too-many-jacobian-entries'] += 1; continue
+        c.count('factor:wrt-rank-%d' % len(sh))
+        var = find_argument(f, nm)
+        if var is None: var = A(nm, *sh)
+        kd, d1 = safe_derivative(f, var)
+        if kd != 'ok':
+            J.outcome['factor:derivative-%s' % kd] += 1
+            raised(d1, label, f, args, nm)
             continue
-        if k1 != 'ok' or not rel_close(v1, want, 1e-9):
-            J.outcome['factor:value-differs-from-unfactored'] += 1; continue
-        c.count('factor:Monomial-nodes', sum(1 for nd in shrink.all_nodes(f) if type(nd).__name__ == 'Monomial'))
-        used = [(nm, sh) for nm, sh in argv if find_argument(poly, nm) is not None]
-        for nm, sh in used:
-            size = int(numpy.prod(sh, dtype=int))
-            if static_size(poly) * size > FACTOR_MAX_ENTRIES:
-                J.outcome['skipped-too-many-jacobian-entries'] += 1; continue
-            c.count('factor:wrt-rank-%d' % len(sh))
-            var = find_argument(f, nm)
-            if var is None: var = A(nm, *sh)
-            kd, d1 = safe_derivative(f, var)
+        sp1 = sp_derivative(sp, nm, sh)
+        exact1 = sp_values(sp1, env)
+        for tag, d in trees(d1):
+            judge(label + ' wrt ' + nm, tag, d, args, exact1, f, (lambda: f), nm, False)
+        # repeated differentiation of the factored form (the rule recurses through the Monomials it builds), mixed partials included
+        seconds = [(b, shb) for b, shb in used if static_size(d1) * int(numpy.prod(shb, dtype=int)) <= FACTOR_MAX_ENTRIES]
+        if seconds:
+            b, shb = rng.choice(seconds)
+            var2 = find_argument(d1, b)
+            kd, d2 = safe_derivative(d1, var2 if var2 is not None else A(b, *shb))
             if kd != 'ok':
-                J.outcome['factor:derivative-%s' % kd] += 1
-                if not (kd == 'exception' and isinstance(d1, NotImplementedError)):
-                    J.fail('derivative-raises:%s:%s' % (type(d1).__name__ if d1 is not None else 'hang', (raising_rule(d1) if d1 is not None else None) or 'Monomial(factor)'),
-                           'evaluable.derivative raises %r on %s' % (d1, label), dict(stream='factor', label=label, wrt=nm, expr=X.describe(f, args), pickled=pack(f, args)))
+                J.outcome['factor:second-derivative-%s' % kd] += 1
+                raised(d2, label + ' (first derivative wrt %s)' % nm, d1, args, b)
                 continue
-            sp1 = sp_derivative(sp, nm, sh)
-            exact1 = sp_values(sp1, env)
-            for tag, d in trees(d1):
-                judge(label + ' wrt ' + nm, tag, d, args, exact1, f, (lambda: f), nm, False)
-            if nlean > 0 and static_size(poly) * size <= 24:
-                nlean -= 1
-                cases += derivative_case(c, 'factor', label + ' wrt ' + nm, f, nm, args, second=False, outcome=J.outcome, e_lean=poly, jacpt=True)
-            # repeated differentiation of the factored form (the rule recurses through the Monomials it builds), mixed partials included
-            seconds = [(b, shb) for b, shb in used if static_size(d1) * int(numpy.prod(shb, dtype=int)) <= FACTOR_MAX_ENTRIES]
-            if seconds:
-                b, shb = rng.choice(seconds)
-                var2 = find_argument(d1, b)
-                kd, d2 = safe_derivative(d1, var2 if var2 is not None else A(b, *shb))
-                if kd != 'ok':
-                    J.outcome['factor:second-derivative-%s' % kd] += 1
-                    if not (kd == 'exception' and isinstance(d2, NotImplementedError)):
-                        J.fail('derivative-raises:%s:%s' % (type(d2).__name__ if d2 is not None else 'hang', (raising_rule(d2) if d2 is not None else None) or 'Monomial(factor)'),
-                               'evaluable.derivative raises %r on the first derivative of %s' % (d2, label), dict(stream='factor', label=label, wrt=b, expr=X.describe(d1, args), pickled=pack(d1, args)))
-                    continue
-                c.count('factor:second-wrt-rank-%d-%d' % (len(sh), len(shb)))
-                exact2 = sp_values(sp_derivative(sp1, b, shb), env)
-                for tag, d in trees(d2):
-                    # finite differences of the first derivative of the UN-factored expression (the ordinary rules) as confirmation
-                    judge(label + ' wrt %s, %s' % (nm, b), tag, d, args, exact2, d1, (lambda: (lambda r: r[1] if r[0] == 'ok' else None)(safe_derivative(poly, find_argument(poly, nm)))), b, True)
-    return cases
+            c.count('factor:second-wrt-rank-%d-%d' % (len(sh), len(shb)))
+            exact2 = sp_values(sp_derivative(sp1, b, shb), env)
+            # (the un-simplified second-derivative tree materialises Diagonalize(Monomial)² densely: seconds per evaluation; its simplified form is evaluated)
+            for tag, d in trees(d2)[-1:]:
+                # finite differences of the first derivative of the UN-factored expression (the ordinary rules) as confirmation
+                judge(label + ' wrt %s, %s' % (nm, b), tag, d, args, exact2, d1, (lambda: (lambda r: r[1] if r[0] == 'ok' else None)(safe_derivative(poly, find_argument(poly, nm)))), b, True)
+
+
+def stream_factor(c, J, n):
+    """Monomial._derivative: evaluable.factor / function.factor of random polynomials (total degree <= 3) in arguments of 0..4 axes with
+    pairwise different axis lengths; first derivatives w.r.t. every argument (un-simplified and simplified tree) and (mixed) second
+    derivatives of the FACTORED form, evaluated by the real code and compared with the exact Jacobian of the polynomial (formal
+    differentiation of a sparse polynomial with Fraction coefficients at the dyadic sample point, independent of nutils); candidates are
+    confirmed with finite differences of the real evaluation.  (Sequential: ~0.4 s per polynomial; worker processes gain nothing on a
+    loaded machine.)"""
+    import random, treelog
+    for seed in [c.rng.getrandbits(31) for _ in range(n)]:
+        try:
+            with treelog.set(treelog.NullLog()):
+                factor_one(random.Random(seed), c, J, confirm=True)
+        except X.Hang:
+            J.outcome['factor:hang'] += 1
+    return []
 
 
 def ev_interpret_function(ast, argmap):
@@ -1602,7 +1674,9 @@ def run(c):
     c.rule = ('(V) random well-typed float/int/bool evaluable DAGs from nvh.genexpr extended with transcendental operations, Power with argument-dependent exponent, '
               'division, Polyval with argument-dependent coefficients and points, loops with index-dependent bodies; one real argument symbolic, the others dyadic; '
               'REAL evaluable.derivative tree un-simplified and simplified, derivative of the derivative, up to two arguments per expression; '
-              '(M) one minimal instance per node class with a _derivative rule; function.derivative / Custom / WithDerivative / Orthonormal / factor streams; '
+              '(M) one minimal instance per node class with a _derivative rule, and the axis-handling rules again on operands with 3 and 4 axes of pairwise different lengths; '
+              'function.derivative / Custom / WithDerivative / Orthonormal streams; factor stream: evaluable.factor / function.factor of random polynomials in arguments of 0..4 axes '
+              '(pairwise different lengths), first and mixed second derivatives of the factored form against the exact polynomial Jacobian (Fractions); '
               'a case is non-trivial when the derivative tree is not Zeros; distinct by stream, label and nutils hash of the derivative trees')
     c.assumptions += ['complex dtype is not generated (FloatToComplex._derivative and the complex branches are not covered)',
                       'the argument differentiated to is symbolic; other arguments, axis lengths and loop lengths are sampled dyadic values',
@@ -1645,6 +1719,8 @@ def run(c):
     cases += stream_withderivative(c, J, 6 if quick else 60)
     cases += stream_function(c, J, 10 if quick else 120)
     cases += stream_custom(c, J, 6 if quick else 40)
+    stream_factor(c, J, 12 if quick else 120)
+    c.log('factor stream done')
     cases += stream_random(c, J, 40 if quick else 700, 3 if quick else 4)
     c.log('%d cases generated' % len(cases))
     c.rng.shuffle(cases) if False else None
